@@ -47,6 +47,7 @@ def run(chk):
     n = 1800 if chk.tier == "quick" else 30000
     cases = codec.gen_cases(chk, n, "C01")
     check_cases(chk, cases, "generated")
+    check_cases(chk, codec.large_count_cases(chk), "large counts")
     codec.check_inplace(chk, "C01", 200 if chk.tier == "quick" else 3000)
     if chk.tier == "thorough":
         # every mask n<=8 on each run-length coded kind (single-track blocks)
